@@ -12,6 +12,7 @@ mod c11;
 mod c12;
 mod c13;
 mod c14;
+mod c15;
 mod c18;
 mod selectors;
 mod interp;
@@ -80,6 +81,7 @@ fn main() {
             "C08" => c08::replay(&v["replay"]),
             "C13" => c13::replay(&v["replay"]),
             "C14" => c14::replay(&v["replay"]),
+            "C15" => c15::replay(&v["replay"]),
             "C18" => c18::replay(&v["replay"]),
             "C12" => c12::replay(&v["replay"]),
             "C11" => c11::replay(&v["replay"]),
@@ -103,6 +105,7 @@ fn main() {
         "C08" => c08::run(&mut run),
         "C13" => c13::run(&mut run),
         "C14" => c14::run(&mut run),
+        "C15" => c15::run(&mut run),
         "C18" => c18::run(&mut run),
         "C12" => c12::run(&mut run),
         "C11" => c11::run(&mut run),
